@@ -324,7 +324,21 @@ def gen_payload(rng):
     return rbytes(rng, n).hex()
 
 
+BOUNDARY_LENS = [254, 255, 256, 257, 258, 300, 511, 512, 1000, 4096]
+
+
+def long_text(rng, n):
+    """valid UTF-8 without NUL of exactly n bytes (some with a multi-byte character across the 255/256 boundary)"""
+    if n >= 4 and rng.random() < 0.4:
+        k = rng.randrange(0, 3)
+        head = b"a" * k + "é".encode() * ((n - k) // 2)
+        return (head + b"z" * (n - len(head)))[:n] if len(head) <= n else b"a" * n
+    return bytes(rng.choice(b"abcdefghijklmnopqrstuvwxyz._-0123456789") for _ in range(n))
+
+
 def gen_text(rng):
+    if rng.random() < 0.06:
+        return long_text(rng, rng.choice(BOUNDARY_LENS))
     if rng.random() < 0.7:
         return rng.choice(LABELS).encode()
     return "".join(rng.choice("abcXYZ.:_-09 é日 \U00010348") for _ in range(rng.randrange(1, 20))).encode()
@@ -342,11 +356,44 @@ def gen_desc(rng):
         d["sig"] = rbytes(rng, 32).hex()
     if rng.random() < 0.3:
         tog |= 16
-        d["salt"] = rbytes(rng, rng.choice([0, 1, 16, 16, 32, 33])).hex()
+        d["salt"] = rbytes(rng, rng.choice([0, 1, 16, 16, 32, 33, 255, 256, 257, 1000] if rng.random() < 0.15 else [0, 1, 16, 16, 32, 33])).hex()
     if rng.random() < 0.1:
         tog |= rng.choice([32, 64, 128, 224])
     d["tog"] = tog
     return d
+
+
+def sdk_tree(rng, depth=0, label_len=None, salt_len=None, payload_len=None):
+    """a tree the SDK's constructors can build: toggles 3, or 19 with a salt of 16 bytes or more; no box id / signature"""
+    lab = long_text(rng, label_len) if label_len else gen_text(rng)
+    n = {"k": "super", "uuid": rng.choice(KNOWN_UUIDS), "tog": 3, "label": lab.hex(), "id": None, "sig": None, "salt": None, "c": []}
+    if salt_len or rng.random() < 0.3:
+        n["tog"] = 19
+        n["salt"] = rbytes(rng, salt_len or rng.choice([16, 16, 32, 33, 255, 256, 257])).hex()
+    for i in range(rng.choice([1, 1, 2, 3])):
+        if depth < 3 and rng.random() < 0.4:
+            n["c"].append(sdk_tree(rng, depth + 1, label_len=(rng.choice(BOUNDARY_LENS) if rng.random() < 0.1 else None)))
+        else:
+            k = rng.choice(["json", "cbor", "cbor", "free", "jp2c", "brob", "uuid", "bfdb", "bidb"])
+            if k == "uuid":
+                n["c"].append({"k": "uuid", "u": rbytes(rng, 16).hex(), "d": rbytes(rng, rng.randrange(1, 20)).hex()})
+            elif k == "bfdb":
+                withfn = rng.random() < 0.4
+                n["c"].append({"k": "bfdb", "tog": 1 if withfn else 0, "mt": rng.choice([b"image/jpeg", b"image/png", "ü/x".encode()]).hex(),
+                               "fn": "00" if withfn else None})
+            else:
+                ln = payload_len if (payload_len is not None and i == 0) else None
+                n["c"].append({"k": k, "d": (rbytes(rng, ln).hex() if ln is not None else gen_payload(rng))})
+    return n
+
+
+def boundary_trees(rng, quick):
+    """deterministic family: label / salt lengths around 255..257 and far beyond, box sizes around 2^16"""
+    out = [("label:%d" % n, sdk_tree(rng, label_len=n)) for n in ([255, 256, 257, 1000] if quick else [254, 255, 256, 257, 258, 511, 512, 1000, 5000, 65536])]
+    out += [("salt:%d" % n, sdk_tree(rng, salt_len=n)) for n in ([255, 256, 257] if quick else [255, 256, 257, 1000, 65535, 65536])]
+    # a leaf whose box size is 2^16 - 1, 2^16, 2^16 + 1
+    out += [("leafsize:%d" % (n + 8), sdk_tree(rng, payload_len=n)) for n in ([65528] if quick else [65527, 65528, 65529, 255, 256, 257])]
+    return out
 
 
 def gen_leaf(rng):
@@ -391,7 +438,7 @@ def nodes_of(n, out=None):
 
 
 MUTATIONS = ["dsz", "size", "xl", "ddsz", "dxl", "type", "tog", "label", "salt", "empty", "rawchild", "uuid0", "bfdb", "trunc",
-             "trail", "deep", "tail", "grow_root", "freebox"]
+             "trail", "deep", "tail", "grow_root", "freebox", "longlabel", "longsalt"]
 
 
 def mutate(rng, tree, what=None):
@@ -467,6 +514,11 @@ def mutate(rng, tree, what=None):
         t["c"].append({"k": "raw", "d": tail})
     elif what == "grow_root":
         t["_dsz"] = rng.choice([1, 8, 9, 1000])
+    elif what == "longlabel":
+        s["label"] = long_text(rng, rng.choice(BOUNDARY_LENS)).hex()
+    elif what == "longsalt":
+        s["tog"] |= 16
+        s["salt"] = rbytes(rng, rng.choice([65536 - 8, 65536] if rng.random() < 0.08 else [255, 256, 257, 1000])).hex()
     elif what == "freebox":
         s["c"].insert(rng.randrange(len(s["c"]) + 1), {"k": "free", "d": "00" * rng.choice([0, 1, 8, 30])})
     return t, post, what
@@ -545,15 +597,20 @@ def evaluate(ctx, cases, with_model=True, stats=None):
             pass
         shortc = [c for c in boxes if len(c["data"]) // 2 <= COMPACT_ABOVE]
         longc = [c for c in boxes if len(c["data"]) // 2 > COMPACT_ABOVE]
-        outs = common.coq_eval("C18", IMPORTS, [f"box_report {coq_big_bytes(bytes.fromhex(c['data']))}" for c in shortc],
-                               shard_size=40, timeout=1500)
-        for c, o in zip(shortc, outs):
-            model[c["id"]] = report_of_coq(o)
         medc = [c for c in longc if len(c["data"]) // 2 <= 12000]
         bigc = [c for c in longc if len(c["data"]) // 2 > 12000]
-        for tag, group, shard in (("C18M", medc, 8), ("C18L", bigc, 1)):
-            outs = common.coq_eval(tag, IMPORTS, [f"box_digest {coq_big_bytes(bytes.fromhex(c['data']))}" for c in group],
-                                   shard_size=shard, timeout=1500)
+        from concurrent.futures import ThreadPoolExecutor
+
+        def ev(tag, fn, group, shard):
+            return common.coq_eval(tag, IMPORTS, [f"{fn} {coq_big_bytes(bytes.fromhex(c['data']))}" for c in group],
+                                   shard_size=shard, timeout=1500, jobs=6)
+        with ThreadPoolExecutor(3) as ex:      # the three groups side by side
+            fs = [ex.submit(ev, "C18", "box_report", shortc, 40), ex.submit(ev, "C18M", "box_digest", medc, 8),
+                  ex.submit(ev, "C18L", "box_digest", bigc, 1)]
+            o_short, o_med, o_big = [f.result() for f in fs]
+        for c, o in zip(shortc, o_short):
+            model[c["id"]] = report_of_coq(o)
+        for group, outs in ((medc, o_med), (bigc, o_big)):
             for c, o in zip(group, outs):
                 model[c["id"]] = digest_of_coq(o)
                 compact.add(c["id"])
@@ -633,12 +690,15 @@ def build_cases(rng, n):
                 assertions.append({"label": f"org.verif.j{j}", "kind": "Json", "data": {"k": rng.randrange(1000), "s": "x" * rng.randrange(40)}})
             else:
                 assertions.append({"label": f"org.verif.c{j}", "data": {"v": [rng.randrange(256) for _ in range(rng.randrange(6))]}})
+        if i == 5 or rng.random() < 0.2:
+            n = [256, 255, 257, 1000][0 if i == 5 else rng.randrange(4)]
+            assertions.append({"label": "org.verif." + "l" * (n - 10), "data": {"long": n}})
         if rng.random() < 0.3:
             assertions.append({"label": "org.verif.same", "data": {"n": 1}})
             assertions.append({"label": "org.verif.same", "data": {"n": 2}})      # instance labels __1
         d = {"title": f"verif {i}", "claim_generator_info": [{"name": "verif-harness", "version": "0.1"}], "assertions": assertions}
         settings = {}
-        kind = rng.choice(["plain", "plain", "compressed", "thumb", "ingredient", "png"]) if i >= 5 else ["plain", "compressed", "thumb", "ingredient", "png"][i]
+        kind = rng.choice(["plain", "plain", "compressed", "thumb", "ingredient", "png"]) if i >= 6 else ["plain", "compressed", "thumb", "ingredient", "png", "plain"][i]
         c = {"op": "build", "kind": kind, "def": json.dumps(d), "src": "earth_apollo17.jpg"}
         if kind != "thumb":
             settings.update(NOTHUMB)
@@ -654,7 +714,7 @@ def build_cases(rng, n):
     return out
 
 
-STORE_MUTATIONS = ["freebox", "rawchild", "salt", "xl", "trail", "tog", "type", "label", "dxl", "assert_uuid", "assert_bfdb",
+STORE_MUTATIONS = ["longlabel", "longsalt", "freebox", "rawchild", "salt", "xl", "trail", "tog", "type", "label", "dxl", "assert_uuid", "assert_bfdb",
                    "extra_manifest", "swap", "drop"]
 
 
@@ -743,7 +803,7 @@ def run(ctx):
     rng = ctx.rng
     cases = list(corpus())
     # 1. SDK-produced stores (fixtures + Builder::sign on generated definitions): box layer and store layer
-    stores, failed = sdk_stores(ctx, rng, 5 if q else 24, QUICK_FIXTURES if q else ALL_FIXTURES)
+    stores, failed = sdk_stores(ctx, rng, 6 if q else 24, QUICK_FIXTURES if q else ALL_FIXTURES)
     lap("sdk stores")
     stats["sdk_stores"] = len(stores)
     stats["sdk_store_failures"] = failed
@@ -754,8 +814,22 @@ def run(ctx):
         cases.append({"op": "store", "data": j, "origin": "sdk", "name": name})
         if len(j) // 2 <= model_limit:
             cases.append({"op": "box", "data": j, "origin": "sdk", "name": name})
+    # 1b. box trees built with the SDK's own constructors and written by its writer (boundary family + random):
+    #     SDK-produced bytes, so parse + re-serialise must be the identity
+    fam = boundary_trees(rng, q) + [("random", sdk_tree(rng)) for _ in range(25 if q else 300)]
+    wr = common.run_harness("c18", [{"id": i, "op": "write", "tree": t} for i, (_, t) in enumerate(fam)])
+    stats["sdk_written"] = {"n": len(fam), "failed": 0, "python_writer_differs": 0}
+    for i, (name, t) in enumerate(fam):
+        r = wr[i]
+        if r.get("r") != "ok":
+            stats["sdk_written"]["failed"] += 1
+            continue
+        if r["jumbf"] != ser(t).hex():
+            stats["sdk_written"]["python_writer_differs"] += 1
+        cases.append({"op": "box", "data": r["jumbf"], "origin": "sdk", "name": "sdk-written:" + name})
     # 2. trees of real stores (printed by the implementation), media payloads shortened: canonical re-serialisation + mutants
-    small = [s for s in stores if len(s[1]) // 2 <= 70000 and s[0] not in ("no_alg.jpg", "prerelease.jpg")][: (4 if q else 12)]
+    small = sorted([s for s in stores if len(s[1]) // 2 <= 70000 and s[0] not in ("no_alg.jpg", "prerelease.jpg")],
+                   key=lambda s: len(s[1]))[: (4 if q else 12)]
     pre = [{"id": i, "op": "box", "data": j} for i, (_, j) in enumerate(small)]
     pr = common.run_harness("c18", pre)
     real_trees = [shrink_media(pr[i]["tree"]) for i in range(len(pre)) if pr[i].get("r") == "ok"]
@@ -783,11 +857,15 @@ def run(ctx):
     for i, c in enumerate(cases):
         c["id"] = i
     lap("cases generated")
+    # 4. model-generated well-formed trees serialised by the *model's* encoder (evaluated in the background)
+    trees = [gen_tree(rng) for _ in range(80 if q else 800)]
+    from concurrent.futures import ThreadPoolExecutor
+    bg = ThreadPoolExecutor(1)
+    fut = bg.submit(common.coq_eval, "C18t", IMPORTS, [f"tree_report {coq_tree(t)}" for t in trees], 20, 1500, 4)
     evaluate(ctx, cases, stats=stats)
     lap("evaluated")
-    # 4. model-generated well-formed trees serialised by the *model's* encoder
-    trees = [gen_tree(rng) for _ in range(80 if q else 800)]
-    outs = common.coq_eval("C18t", IMPORTS, [f"tree_report {coq_tree(t)}" for t in trees], shard_size=25, timeout=1500)
+    outs = fut.result()
+    bg.shutdown()
     mcases, mreports = [], {}
     stats["model_trees"] = {"n": len(trees), "not_wf": 0, "python_writer_differs": 0}
     for i, (t, o) in enumerate(zip(trees, outs)):
